@@ -213,7 +213,7 @@ def gen_chain(R, st, names, budget, depth, anchor, cfg):
                 nd.rings.append([None, rid, _marker_text(R, rid)])
                 used_here.add(rid)
             elif len(st.open) < cfg['max_open']:
-                free = [r for r in range(1, 10) if r not in st.open and r not in used_here]
+                free = [r for r in range(0, 10) if r not in st.open and r not in used_here]
                 if R.chance(0.3) or not free:
                     rid = R.choice([r for r in (10, 11, 12, 25, 99, 100, 123, 134, 256)
                                     if r not in st.open and r not in used_here])
